@@ -321,6 +321,15 @@ class Runner:
         d = mr['dir']
         env = dict(os.environ, TMPDIR=d)
         cmd = self.cbmc_cmd(ob, mr['gb'], False, trace=True)
+        picked, seen_desc = [], set()
+        for f in mr['failed']:
+            key = (f['desc'], f['function'])
+            if key in seen_desc or not f.get('property'):
+                continue
+            seen_desc.add(key)
+            picked.append(f['property'])
+        for pid in picked[:4]:
+            cmd += ['--property', pid]
         budget = 3 * (ob.budget or (QUICK_BUDGET if self.tier == 'quick' else THOROUGH_BUDGET))
         rc, out, errt, secs, rss = sh(cmd, timeout=budget, mem_gb=ob.mem_gb + 4, cwd=d, env=env)
         rdir = os.path.join(VERIF, 'replays', self.prop)
@@ -383,7 +392,7 @@ class Runner:
             return 'unreplayed', 'two-part (contract-instrumented) harness: no native replay'
         if ob.replace:
             return 'unreplayed', 'call-replaced harness: no native replay'
-        cmd = ['gcc', '-O0', '-g', '-w', '-fsanitize=address,undefined', '-fno-sanitize-recover=undefined', '-DVT_REPLAY'] + self.cc_args(ob) + \
+        cmd = ['gcc', '-O0', '-g', '-w', '-no-pie', '-Wl,--unresolved-symbols=ignore-all', '-fsanitize=address,undefined', '-fno-sanitize-recover=undefined', '-DVT_REPLAY'] + self.cc_args(ob) + \
               [harness, os.path.join(VERIF, 'harness', 'replay_main.c')] + srcs + ['-lm', '-o', exe]
         rc, o, e, _, _ = sh(cmd)
         if rc != 0:
